@@ -14,6 +14,7 @@ hash seeded by hash_leaf(data) and the PATH chunks in order, and continues with 
 L from children 2i, 2i+1 of level L-1 in that order.  Padding: a node is appended to the children level only on the odd-count edge.
 Reset: MerkleTree::reset clears every level (loop to exhaustion, no other exit); `levels` is written only by the
 constructors, push_leaf, compute_root and reset; Responder::reset calls it.  Both the producing and the verifying side end with the same finalisation.
+The walk in get_paths is left only when the current level is empty (never at a fixed depth below 8 levels).
 Hashing: hash_leaf = hash([0x00, leaf]), hash_nodes = hash([0x01, left, right]), and MerkleTree::hash feeds every input slice whole and in order into one
 digest under self.algorithm, truncated to hash_len() (a proof binds only the bytes the leaf hash covers).
 """
@@ -410,6 +411,30 @@ def run(ctx):
             okl = True
     ctx.check("index-algebra", "get_paths/level-advances-by-one", okl, "level starts at 0 and advances by one per path element",
               "cannot establish that get_paths walks the levels 0,1,2,...", ctx.loc(gp))
+
+    # the walk goes all the way up: it is left only when the current level is empty (the level above the root), never at a fixed depth that a
+    # batch of up to 255 requests (8 levels) can exceed
+    gev = W.ev(gp.path)
+    gef = flow.edge_facts(gp, gev)
+    sibs = [bb for bb, t in gp.calls() if t["fn"].get("trait") == "core::ops::index::Index" and levels_index(gev.call_term(bb))]
+    wl = [l for l in gp.loops() if any(b in l["body"] for b in sibs)]
+    if wl:
+        lp = max(wl, key=lambda l: len(l["body"]))
+        for (s0, d0) in lp["exits"]:
+            if d0 in gp.diverging():
+                continue
+            rels = [r for f in gef.get((s0, d0), ()) for r in flow.relational(f)]
+            empty = any((r[0] == "Pred" and r[1] == "is_empty") or (r[0] == "Eq" and isinstance(r[1], tuple) and r[1][0] == "len" and r[2] == ("int", 0)) or
+                        (r[0] in ("Eq", "Ne") and isinstance(r[1], tuple) and r[1][0] == "discr" and is_call(values.strip_payload(r[1][1])) and
+                         callee_name(values.strip_payload(r[1][1])[1]) in ("get", "first", "next")) for r in rels)
+            caps = [r[1][1] if r[1][0] == "int" else r[2][1] for r in rels if r[0] in ("Le", "Lt") and isinstance(r[1], tuple) and isinstance(r[2], tuple) and
+                    (r[1][0] == "int") != (r[2][0] == "int")]
+            okx = empty or (bool(caps) and min(caps) >= 8)
+            ctx.check("index-algebra", "get_paths/walks-to-the-top@%d" % s0, okx, "the walk ends when the level is empty (above the root)",
+                      "get_paths stops climbing at a fixed depth (%s): for batches deeper than that the PATH is cut short and does not reach the root" % (caps or [fmt(r[1])[:40] for r in rels]),
+                      gp.loc(s0))
+    else:
+        ctx.violation("index-algebra", "get_paths/walks-to-the-top", "no loop containing the sibling lookup found in get_paths", ctx.loc(gp))
 
     # ------------------------------------------------------------------ root_from_paths
     rp = ctx.fn(M + "::root_from_paths")
